@@ -699,9 +699,9 @@ example : (runOps 250 5000 minI64 (fun (i : Nat) => (i : Int) + 100) [.write 10 
 example : runOps 250 5000 minI64 (fun (i : Nat) => (i : Int)) [.rebuild 5] = {} := by decide
 
 /-- `hs0` is needed: with the segment maximum starting at 0 (the code before fix db44772) and negative timestamps the
-rebuilt point `(0, 2)` claims `0 ≤ tsOf 3 = -5` -/
-example : rebuildPts 2 0 [-30, -20, -10, -5] = [⟨-30, 0⟩, ⟨-30, 0⟩, ⟨0, 2⟩, ⟨0, 4⟩] ∧
-    ¬ LookupSound (fun q => [-30, -20, -10, -5].getD q 0) 4 (rebuildPts 2 0 [-30, -20, -10, -5]) := by
+point `(0, 2)` rebuilt from the first two of four records claims `0 ≤ tsOf 3 = -5` -/
+example : rebuildPts 2 0 [-30, -20] = [⟨-30, 0⟩, ⟨-30, 0⟩, ⟨0, 2⟩] ∧
+    ¬ LookupSound (fun q => [-30, -20, -10, -5].getD q 0) 4 (rebuildPts 2 0 [-30, -20]) := by
   refine ⟨by decide, ?_⟩
   intro h
   have := h.2 ⟨0, 2⟩ (by decide) 3 (by decide) (by decide)
